@@ -35,7 +35,7 @@ func c16(args []string) {
 	ngraphs := c.Pick(12, 150)
 	for g := 0; g < ngraphs; g++ {
 		b := []int{1, 3, 128}[rng.Intn(3)]
-		o := gen.GraphOpts{MaxProcs: 7, Lens: []int{1, 2, 3}, Buf: b, FanIn: true, Params: true, GoFunc: true, MultiOut: true, Portless: true, ParamComb: true,
+		o := gen.GraphOpts{MaxProcs: 7, Lens: []int{1, 2, 3}, Buf: b, FanIn: true, Params: true, GoFunc: true, WriteAPI: true, MultiOut: true, Portless: true, ParamComb: true,
 			Cores: 2, MaxTasks: 4, NoUnequal: true, Leaf: g%4 == 0}
 		s := gen.Graph(rng, fmt.Sprintf("g%d", g), o)
 		exp := evalRef(s, nil)
